@@ -63,9 +63,15 @@ def scenarios(tier, rng):
     out.append({"id": "nla%d" % k, "pack": "end_in_record_nla", "nla": True, "mode": "in_record_ultimatum", "input": 0, "steps": [{"end": "in_record_ultimatum", "with": [["bmp", 1], ["bmp", 2]]}]}); k += 1
     # a GUI thread that takes the shared mutex as often as it can while records of 250 PDUs arrive: the receive thread may
     # have to WAIT for the mutex, never conclude from a busy mutex that nothing is pending
-    for rep in range(1 if tier == "quick" else 4):
-        out.append({"id": "busy%d" % k, "pack": "contended", "mode": "ultimatum", "input": 0, "quiet_ms": 1500,
-                    "steps": [{"busy": True}] + [{"rec": [["bmps", 1 + 250 * r, 250]]} for r in range(4 if tier == "quick" else 12)] + [{"end": "ultimatum"}]}); k += 1
+    # (4 records: TLC prints the accepted behaviour, whose states hold the whole list of forwarded bitmaps; the thorough
+    # tier repeats every scenario ten times)
+    out.append({"id": "busy%d" % k, "pack": "contended", "mode": "ultimatum", "input": 0, "quiet_ms": 1500,
+                "steps": [{"busy": True}] + [{"rec": [["bmps", 1 + 250 * r, 250]]} for r in range(4)] + [{"end": "ultimatum"}]}); k += 1
+    # the session ends in the middle of a PDU of more than 16 KiB (a reader that collects large PDUs piecewise must notice
+    # the end of the stream there too), with and without a complete PDU in front
+    for m in ("notify", "abrupt"):
+        for pre in ([], [{"rec": [["bmp", 1]]}]):
+            out.append({"id": "cut%d" % k, "pack": "cut_in_big_pdu", "mode": m, "input": 0, "steps": json.loads(json.dumps(pre)) + [{"rec": [["part1", 7, "big"]], "nowait": True}, {"pause": 50}, {"end": m}]}); k += 1
     for pn, steps in packs.items():
         for m in MODES:
             for inp in ([0] if tier == "quick" and pn not in ("two_in_one", "mixed") else [0, 5]):
